@@ -91,7 +91,9 @@ class Compiler:
             if not isinstance(self.name[depth], psr.Pattern):
                 return 0, [], ''
             tag = int(self.name[depth].id)
-            if tag in prev_tags:
+            # Only a named pattern can have been matched before: a temporary tag never repeats within a chain,
+            # and `prev_tags` may contain the temporary tags of other chains merged into the same path.
+            if tag >= 0 and tag in prev_tags:
                 return tag, [], str(tag) + ':'
             cons_set = []
             # Temporary tags are never repeated, so their numbers are left out of the merging key
